@@ -310,6 +310,31 @@ def r07_2(ctx):
         ctx.ob("row:" + " ".join("xx" if x is None else "%02X" % x for x in r), a == enc, site(d), f"spec: {enc}; code: {a}")
 
 
+def _helper_makes_char_safely(lib, f, depth=0):
+    """A same-crate function returning `char` whose every returned value comes from from_u32_unchecked (each such
+    site is bounded by the first part of R07.3) or is the Some payload of the checked char::from_u32."""
+    hb = lib.by_id.get(f.get("resolved") or f.get("def"))
+    if hb is None or not f.get("local") or hb.local_ty(0) != "char" or depth > 2:
+        return False
+    defs = hb.whole_defs(0)
+    if not defs:
+        return False
+    for dbb, idx, kind, payload in defs:
+        if kind == "call":
+            pf = fn_of(payload) or {}
+            if pf.get("name") == "from_u32_unchecked" or _helper_makes_char_safely(lib, pf, depth + 1):
+                continue
+            return False
+        if kind == "assign" and payload["rv"]["k"] == "use":
+            tr = trace(hb, payload["rv"]["op"])
+            pf = fn_of(tr.origin[2]) if tr.origin and tr.origin[0] == "call" else None
+            if pf and (pf.get("name") == "from_u32_unchecked" or (pf.get("name") == "from_u32" and any(st[0] == "downcast" and st[1] == "Some" for st in tr.steps)) or _helper_makes_char_safely(lib, pf, depth + 1)):
+                continue
+            return False
+        return False
+    return True
+
+
 @rule("R07.3", 3, "no fabricated characters: every from_u32_unchecked argument is proven a Unicode scalar value (interval analysis); other chars come from checked conversions", ["C07", "C17"])
 def r07_3(ctx):
     lib = ctx.lib
@@ -318,7 +343,7 @@ def r07_3(ctx):
         sites = [(bb, t) for bb, t in b.calls() if (fn_of(t) or {}).get("name") == "from_u32_unchecked"]
         if not sites:
             continue
-        iv = ival.Interval(b)
+        iv = ival.for_body(b)
         for i, (bb, t) in enumerate(sites):
             n += 1
             v = iv.at_call(bb, t["args"][0])
@@ -356,6 +381,9 @@ def r07_3(ctx):
                     elif src and src["name"] == "from_u32" and any(st[0] == "downcast" and st[1] == "Some" for st in tr.steps):
                         ok = True
                         det = "char is the Some payload of the checked char::from_u32"
+                    elif src and _helper_makes_char_safely(lib, src):
+                        ok = True
+                        det = f"char returned by {src['def']}, which produces it with from_u32_unchecked (bounded above) / the checked char::from_u32"
                     elif src:
                         det = f"char produced by {src['def']}"
                     ctx.ob(f"ok-char-origin:{b.raw.get('impl_self_adt', '').rsplit('::', 1)[-1]}::{b.name}:{_nth(seen_keys, b.id)}", ok, site(b, line=s["line"]), det)
@@ -369,7 +397,7 @@ def r07_5(ctx):
         sites = [(bb, t) for bb, t in b.calls() if (fn_of(t) or {}).get("name") == "from_u32_unchecked"]
         if not sites:
             continue
-        iv = ival.Interval(b)
+        iv = ival.for_body(b)
         # subtractions of a surrogate base from a 16-bit unit
         for bi in sorted(b.reach()):
             for si, s in enumerate(b.blocks[bi]["stmts"]):
@@ -565,12 +593,78 @@ def _byte_count(b, op):
     return None
 
 
-def _block_effects(b, bi, pos_field):
+def _helper_takes(lib, h):
+    """For a same-crate helper that reads one unit: the byte count it takes from its reader on the paths that
+    build a `Some(..)` (a unit was read), as an int or as the name of a const generic (`N` of `[u8; N]`);
+    None when the paths disagree or an amount is not recognisable."""
+    totals = set()
+    ok = [True]
+
+    def amount(bi):
+        t = h.blocks[bi]["term"]
+        if t["k"] != "call":
+            return 0
+        f = fn_of(t) or {}
+        if f.get("trait") == "std::io::Read" and f.get("name") == "read_exact" and len(t["args"]) == 2:
+            k = _array_len_behind(h, t["args"][1])
+            if k is not None:
+                return k
+            # `[u8; N]` with a const generic N
+            cur = t["args"][1]
+            for _ in range(6):
+                if not is_place(cur):
+                    break
+                m = re.match(r"^&?(?:mut )?\[u8; ([A-Z_][A-Za-z0-9_]*)\]$", h.local_ty(cur["p"]["l"]))
+                if m:
+                    return m.group(1)
+                ds = h.whole_defs(cur["p"]["l"])
+                if len(ds) != 1 or ds[0][2] != "assign":
+                    break
+                rv = ds[0][3]["rv"]
+                cur = rv["op"] if rv["k"] in ("use", "cast") else ({"k": "copy", "p": {"l": rv["p"]["l"], "pr": []}} if rv["k"] in ("ref", "copyforderef") else None)
+                if cur is None:
+                    break
+            return None
+        if f.get("trait") == "std::io::BufRead" and f.get("name") == "consume" and len(t["args"]) == 2:
+            return _byte_count(h, t["args"][1])
+        if f.get("trait") == "std::io::Read" and f.get("name") in ("read", "read_to_end", "read_buf", "read_vectored", "read_to_string"):
+            return None
+        return 0
+
+    def walk(bi, seen, acc, some):
+        a = amount(bi)
+        if a is None:
+            ok[0] = False
+            return
+        acc = acc + [a] if a != 0 else acc
+        some = some or any(s_["k"] == "assign" and s_["rv"]["k"] == "aggregate" and s_["rv"].get("variant") == "Some" for s_ in h.blocks[bi]["stmts"])
+        if h.blocks[bi]["term"]["k"] == "return":
+            if some:
+                totals.add(tuple(sorted(map(str, acc))))
+            return
+        for lab, x in h.edges(bi):
+            if x in seen or h.blocks[x].get("cleanup"):
+                continue
+            walk(x, seen | {x}, acc, some)
+
+    walk(0, {0}, [], False)
+    if not ok[0] or len(totals) != 1:
+        return None
+    tot = next(iter(totals))
+    if len(tot) != 1:
+        return None
+    return int(tot[0]) if tot[0].isdigit() else tot[0]
+
+
+def _block_effects(b, bi, pos_field, unit_helper=None):
     """(bytes consumed from a reader, bytes added to the position field) by block bi; None for an amount that is
-    not a constant."""
+    not a constant. `unit_helper` = (call term, bytes) of the same-crate unit-reading helper whose Some payload
+    is what gets decoded."""
     used = adv = 0
     t = b.blocks[bi]["term"]
-    if t["k"] == "call":
+    if t["k"] == "call" and unit_helper is not None and t is unit_helper[0]:
+        used = unit_helper[1]
+    elif t["k"] == "call":
         f = fn_of(t) or {}
         if f.get("trait") == "std::io::Read" and f.get("name") == "read_exact" and len(t["args"]) == 2:
             k = _array_len_behind(b, t["args"][1])
@@ -615,6 +709,20 @@ def r07_8(ctx):
             adt = lib.adts.get(b.raw.get("impl_self_adt") or "", {})
             pos_fields = [fl["name"] for fl in (adt.get("variants") or [{"fields": []}])[0]["fields"] if fl["ty"] == "u64"]
             pos_field = pos_fields[0] if len(pos_fields) == 1 else None
+            # the unit may be read by a same-crate helper (`read_code_unit::<_, 2>(&mut self.source)?`): its Some
+            # payload is what is decoded, and it takes as many bytes as its array type says
+            unit_helper = None
+            feed = trace(b, dt["args"][1], passthrough_extra=("std::ops::Try::branch",))
+            if feed.origin and feed.origin[0] == "call" and (fn_of(feed.origin[2]) or {}).get("local") and any(st_[0] == "downcast" and st_[1] == "Some" for st_ in feed.steps):
+                hf = fn_of(feed.origin[2])
+                h = lib.by_id.get(hf.get("resolved") or hf.get("def"))
+                takes = _helper_takes(lib, h) if h is not None else None
+                if isinstance(takes, str):
+                    # a const generic: read it off the instantiated result type at the call site
+                    pat = re.escape(h.local_ty(0)).replace(re.escape(f"[u8; {takes}]"), r"\[u8; (\d+)\]")
+                    m2 = re.match("^" + pat + "$", b.local_ty(feed.origin[2]["dest"]["l"]))
+                    takes = int(m2.group(1)) if m2 else None
+                unit_helper = (feed.origin[2], takes)
             # every simple path from the entry to the decode call
             paths = []
             overflow = [False]
@@ -624,7 +732,7 @@ def r07_8(ctx):
                     overflow[0] = True
                     return
                 if bi != dbb or not seen:
-                    u, a = _block_effects(b, bi, pos_field) if bi != dbb else (0, 0)
+                    u, a = _block_effects(b, bi, pos_field, unit_helper) if bi != dbb else (0, 0)
                     used = None if (u is None or used is None) else used + u
                     adv = None if (a is None or adv is None) else adv + a
                 if bi == dbb:
